@@ -23,7 +23,7 @@ def discreteAccept (cdfAt : Int → Rat) (lo hi : Int) (y : Rat) : List Int :=
   ((List.range (hi - lo + 1).toNat).map fun (i : Nat) => lo + (i : Int)).filter fun k =>
     cdfAt k ≥ y - slack && (k == lo || cdfAt (k - 1) < y + slack)
 
-def handleInv (ins outs : List J) : Verdict :=
+def handleInv1 (ins outs : List J) : Verdict :=
   match ins, outs with
   | [.atom "pw", pwJ, yJ], [gJ] =>
     match parsePW pwJ, yJ.flt?, gJ.flt? with
@@ -80,6 +80,18 @@ def handleInv (ins outs : List J) : Verdict :=
       verdictOf "nt builtin continuous" [("inv-continuous", cBelow - rtol ≤ y && y ≤ cAt + rtol, s!"y={ratStr y} cdf(x-)={ratStr cBelow} cdf(x)={ratStr cAt}")]
     | _, _, _, _ => .badOp "inv cont: parse"
   | _, _ => .badOp "inv: arity"
+
+/-- several y through one closure: every answer is judged like a single query -/
+def handleInv (ins outs : List J) : Verdict :=
+  match ins.getLast?, outs with
+  | some (.arr ys), [.arr xs] =>
+    if ys.length != xs.length then .badOp "inv: history length" else
+    let pre := ins.dropLast
+    let vs := (ys.zip xs).map fun (y, x) => handleInv1 (pre ++ [y]) [x]
+    match vs.find? (fun v => match v with | .fail .. => true | .badOp _ => true | _ => false) with
+    | some v => v
+    | none => .ok s!"nt history len={min ys.length 9}"
+  | _, _ => handleInv1 ins outs
 
 /-- `rnd <kind> … => v w again` : Rand(dist)(rng) vs InvCDF(dist)(first non-zero Float64 of the same source) -/
 def handleRnd (ins outs : List J) : Verdict :=
